@@ -31,9 +31,9 @@ Definition shadow1 (k m dt q p : R) : R := p * p / (2 * m) + / 2 * k * q * q * (
 
 (* Maxwell-Boltzmann refresh: xi requested StdNormal; kT = context.temperature * kB *)
 Definition mb_p (m kT xi : R) : R := xi * sqrt (m * kT).
-(* forced: real_temperature = 2 KE / dof + 1e-15 ;  scale = sqrt(kT / real_temperature);  KE' = KE * scale^2 *)
-Definition real_temp (ke dof : R) : R := 2 * ke / dof + / 1000000000000000.
-Definition forced_scale (kT ke dof : R) : R := sqrt (kT / real_temp ke dof).
+(* forced: real_temperature = 2 KE / dof ;  scale = sqrt(kT / real_temperature) when there is kinetic energy to rescale, 1 otherwise;  KE' = KE * scale^2 *)
+Definition real_temp (ke dof : R) : R := 2 * ke / dof.
+Definition forced_scale (kT ke dof : R) : R := if Rlt_dec 0 (real_temp ke dof) then sqrt (kT / real_temp ke dof) else 1.
 Definition ke_after_forced (kT ke dof : R) : R := ke * (forced_scale kT ke dof * forced_scale kT ke dof).
 
 (* the Hamiltonian move: per attempt  refresh -> record kinetic energy -> integrate -> check; on a failed check restore.
